@@ -24,6 +24,77 @@ Definition run (l : list Z) : list Z :=
 """
 
 
+MEAN_IMPORTS = ("From Coq Require Import ZArith QArith List.\nFrom QPM Require Import SamplingMean.\nOpen Scope Z_scope.")
+MEAN_DEFS = """
+(* outcomes and labels are indices; the eigenvalue table tab[l][b] is +1 / -1 *)
+Definition rec (tab : list (list Z)) (l b : Z) : Q := inject_Z (nth (Z.to_nat b) (nth (Z.to_nat l) tab []) 0).
+Definition coefq (cs : list (option (Z * Z))) (l : Z) : option Q :=
+  match nth (Z.to_nat l) cs None with Some (n, d) => Some (Qmake n (Z.to_pos d)) | None => None end.
+Definition runm (tab : list (list Z)) (idl : list Z) (counts : list (Z * Z)) (ps : list Z) (cs : list (option (Z * Z))) : list Z :=
+  let q := Qred (pauli_sum_expectation Q Z Z 0%Q 1%Q Qplus Qmult Qdiv (rec tab)
+                   (fun l => existsb (Z.eqb l) idl) (map (fun bc => (fst bc, inject_Z (snd bc))) counts) ps (coefq cs)) in
+  [Qnum q; Zpos (Qden q)].
+"""
+
+
+def mean_part(res, rng, a):
+    """general_pauli_sum_expectation_estimator vs coq/model/SamplingMean.v run on exact rationals"""
+    from fractions import Fraction
+    from quri_parts.core.estimator.sampling import general_pauli_sum_expectation_estimator
+    from quri_parts.core.measurement import bitwise_pauli_reconstructor_factory
+    terms, reals, infos = [], [], []
+    for _ in range(120 if a.tier == "quick" else 1500):
+        n = rng.choice([1, 2, 3, 5, 70])
+        labs = []
+        for _j in range(rng.randint(1, 5)):
+            if rng.random() < 0.15:
+                labs.append(PAULI_IDENTITY)
+            else:
+                idx = sorted(rng.sample(range(n), rng.randint(1, min(n, 3))))
+                labs.append(pauli_label(" ".join(f"{rng.choice('XYZ')}{i}" for i in idx)))
+        labs = list(dict.fromkeys(labs))
+        outcomes = list({rng.getrandbits(n) for _j in range(rng.randint(1, 6))})
+        counts = {b: rng.choice([1, 2, 7, 100, 12345]) for b in outcomes}
+        if rng.random() < 0.1:
+            counts[outcomes[0]] = 0 if len(outcomes) > 1 else 1
+        coefs = {}
+        for l in labs:
+            if rng.random() < 0.8:
+                coefs[l] = Fraction(rng.randint(-8, 8), rng.choice([1, 2, 4, 8]))
+        extra = pauli_label("Z0")
+        if rng.random() < 0.3 and extra not in labs:
+            coefs[extra] = Fraction(5)          # in coefs but not in the group: must be ignored
+        tab = []
+        for l in labs:
+            row = []
+            for b in outcomes:
+                sgn = 1
+                for i, _p in l:
+                    if (b >> i) & 1:
+                        sgn = -sgn
+                row.append(sgn)
+            tab.append(row)
+        real = general_pauli_sum_expectation_estimator(counts, set(labs), {k: float(v) for k, v in coefs.items()},
+                                                      bitwise_pauli_reconstructor_factory)
+        idl = [i for i, l in enumerate(labs) if l == PAULI_IDENTITY]
+        ctxt = "[" + "; ".join(f"({i}, {counts[b]})" for i, b in enumerate(outcomes)) + "]"
+        cs = "[" + "; ".join((f"Some ({coefs[l].numerator}, {coefs[l].denominator})" if l in coefs else "None") for l in labs) + "]"
+        tabtxt = "[" + "; ".join(coqeval.zlist(r) for r in tab) + "]"
+        terms.append(f"runm {tabtxt} {coqeval.zlist(idl)} {ctxt} {coqeval.zlist(range(len(labs)))} {cs}")
+        reals.append(real)
+        infos.append({"labels": [str(l) for l in labs], "counts": counts, "coefs": {str(k): str(v) for k, v in coefs.items()}})
+        res.count(("mean", str(labs), str(counts), str(coefs)), bucket="mean_estimator")
+    try:
+        model = coqeval.eval_cases(a.work, "c08mean", MEAN_IMPORTS, MEAN_DEFS, terms)
+    except Exception as e:  # noqa: BLE001
+        res.broken.append({"what": "correspondence C08 (mean estimator): model evaluation failed", "detail": str(e)[-1200:]})
+        return
+    for info, r, m in zip(infos, reals, model):
+        want = m[0] / m[1]
+        if abs(complex(r) - want) > 1e-9 * (1 + abs(want)):
+            res.fail("corr:general_pauli_sum_expectation_estimator", f"implementation {r} != model {m[0]}/{m[1]}", info)
+
+
 def main():
     a = O.std_args().parse_args()
     rng = random.Random(a.seed * 424243 + 1)
@@ -129,6 +200,7 @@ def main():
         if abs(val - exp) > 1e-9:
             res.fail("corr:sampling_estimate:wide_register_value", f"estimate {val} != exact {exp} on a {n}-qubit register",
                      {"n": n, "bits": bits, "operator": str(op)})
+    mean_part(res, rng, a)
     try:
         model = coqeval.eval_cases(a.work, "c08", IMPORTS, DEFS, terms)
         for info, r, m in zip(infos, expect_real, model):
